@@ -12,7 +12,6 @@ from ..fn import World
 from ..index import AnalysisError, dotted
 from ..astutil import text, short, endswith, calls_in, walk_no_nested
 from .. import events as E
-from .. import types as T
 from . import _h_C as H
 from .c11 import _stmt_of, _single
 
@@ -66,6 +65,18 @@ def _is_recalc_when(t, const):
   return None
 
 
+def _recalc_when_holds(t, p, const):
+  """Record expression when guard (t, polarity) is equivalent to `<rec>.recalcWhen == <const>`."""
+  if not (isinstance(t, ast.Compare) and len(t.ops) == 1):
+    return None
+  if isinstance(t.ops[0], ast.NotEq) and p is False:
+    eq = ast.Compare(left=t.left, ops=[ast.Eq()], comparators=t.comparators)
+    return _is_recalc_when(eq, const)
+  if isinstance(t.ops[0], ast.Eq) and p is True:
+    return _is_recalc_when(t, const)
+  return None
+
+
 def _data_col_with_formula_skip(t, col):
   """`col.is_formula() or not col.has_formula()`"""
   if not (isinstance(t, ast.BoolOp) and isinstance(t.op, ast.Or) and len(t.values) == 2):
@@ -104,9 +115,8 @@ def r1_dependencies(run, w):
   table_id = text(tl.target.elts[0])
   for (n, c) in adds:
     g = H.guards_of(fn.node, _stmt_of(fn.node, c))
-    whens = [(t, p) for (t, p) in g if _is_recalc_when(t, "DEFAULT") is not None or
-             "recalcWhen" in text(t)]
-    rec = _is_recalc_when(whens[0][0], "DEFAULT") if len(whens) == 1 and whens[0][1] else None
+    whens = [(t, p) for (t, p) in g if "recalcWhen" in text(t)]
+    rec = _recalc_when_holds(whens[0][0], whens[0][1], "DEFAULT") if len(whens) == 1 else None
     ok = rec is not None and _col_rec_lookup(fn, rec, table_id, col_id)
     run.ob(R1, fn.qualname, "if col_rec.recalcWhen == RecalcWhen.DEFAULT: ... add_edge",
            "dependency edges exist only for columns configured to recalculate on changes to "
@@ -144,23 +154,29 @@ def r1_dependencies(run, w):
            "SingleRowsIdentityRelation(table))", "the trigger column depends on the dependency "
            "column of the same table, row by row, through the relation that ignores "
            "whole-column invalidation", ok, fi=fn.fi, node=c)
-  # old edges cleared first, for every considered column
-  clears = [(n, c) for (n, c, nm) in fn.calls() if nm == "self.dep_graph.clear_dependencies"]
-  (cn, cc) = _single(clears, "_maybe_update_trigger_dependencies: clear_dependencies")
-  g = H.guards_of(fn.node, _stmt_of(fn.node, cc))
-  filt = [(t, p) for (t, p) in g if _within(t, cl)]
-  ok = len(filt) == 1 and filt[0][1] is False and _data_col_with_formula_skip(filt[0][0], col_obj)
+  # exactly the data columns with a formula are considered
+  (fn0, fc0) = adds[0]
+  g = H.guards_of(fn.node, _stmt_of(fn.node, fc0))
+  filt = [(t, p) for (t, p) in g if _within(t, cl) and p is False and
+          "recalcWhen" not in text(t)]
+  ok = len(filt) == 1 and _data_col_with_formula_skip(filt[0][0], col_obj)
   run.ob(R1, fn.qualname, "if %s.is_formula() or not %s.has_formula(): continue" % (col_obj,
                                                                                    col_obj),
          "exactly the data columns that have a formula are (re)considered", ok,
-         witness="; ".join("%s=%s" % x for x in _gtexts(filt)), fi=fn.fi, node=cc)
+         witness="; ".join("%s=%s" % x for x in _gtexts(filt)), fi=fn.fi, node=fc0)
+  # old edges cleared first, for every considered column
+  clears = [(n, c) for (n, c, nm) in fn.calls() if nm == "self.dep_graph.clear_dependencies"]
   flow = H.Flow(fn)
-  rs = flow.roots(cc.args[0], cn.id) if cc.args else []
-  ok = _all_calls(rs, "Node", [table_id, col_id]) and \
-      all(cfg.dominated_by(n.id, {cn.id}) for (n, c) in adds)
+  ok = False
+  for (cn, cc) in clears:
+    rs = flow.roots(cc.args[0], cn.id) if cc.args else []
+    gc = [(t, p) for (t, p) in H.guards_of(fn.node, _stmt_of(fn.node, cc)) if _within(t, cl)]
+    ok = ok or (_all_calls(rs, "Node", [table_id, col_id]) and
+                all(cfg.dominated_by(n.id, {cn.id}) for (n, c) in adds) and
+                _gtexts(gc) == _gtexts(filt))
   run.ob(R1, fn.qualname, "clear_dependencies(Node(table, col)) before add_edge",
-         "a column whose configuration changed loses its old edges (no recalculation from "
-         "dependencies it no longer has)", ok, fi=fn.fi, node=cc)
+         "every considered column -- whatever its recalcWhen now is -- loses its old edges "
+         "first (no recalculation from dependencies it no longer has)", ok, fi=fn.fi)
   # the relation drops ALL_ROWS
   sr = w.fn("relation.SingleRowsIdentityRelation.get_affected_rows")
   p = sr.fi.params()[1]
@@ -515,23 +531,27 @@ def r4_manual_updates(run, w):
       b[ips[3]].value is True
   run.ob(R4, fn.qualname, "invalidate_column(%s, ..., recompute_data_col=True)" % col_obj,
          "the data column itself is scheduled for recalculation", ok, fi=fn.fi, node=ic)
-  top = [s for s in fn.node.body if any(x is ic for x in ast.walk(s))][0]
-  # (earlier top-level early exits reject the whole user action and are not of interest here)
-  g = [(t, p) for (t, p) in H.guards_of(fn.node, _stmt_of(fn.node, ic)) if _within(t, top)]
+  g = H.guards_of(fn.node, _stmt_of(fn.node, ic))
   nonempty = []
   filt = []
   manual = []
   other = []
   for (t, p) in g:
+    if isinstance(t, ast.Name) and not from_trim(t, flow.node_of(t), 2)[0]:
+      d = E.local_defs(fn.node, t.id)     # a flag computed just before: look at its definition
+      if len(d) == 1:
+        t = d[0]
     if p is True and isinstance(t, ast.Name) and from_trim(t, flow.node_of(t), 2)[0]:
       nonempty.append(t)
     elif p is False and _data_col_with_formula_skip(t, col_obj):
       filt.append(t)
-    elif p is True and _is_recalc_when(t, "MANUAL_UPDATES") is not None and \
-        _col_rec_lookup(fn, _is_recalc_when(t, "MANUAL_UPDATES"), p_table, col_id):
+    elif _recalc_when_holds(t, p, "MANUAL_UPDATES") is not None and \
+        _col_rec_lookup(fn, _recalc_when_holds(t, p, "MANUAL_UPDATES"), p_table, col_id):
       manual.append(t)
-    else:
+    elif _within(t, cl):
       other.append((t, p))
+    # (conditions outside the column loop other than the emptiness test are whole-action early
+    # exits -- validation that rejects the user action -- and are not of interest here)
   run.ob(R4, fn.qualname, "if <columns of the trimmed update>: ...", "nothing is invalidated "
          "when the update changed nothing", len(nonempty) == 1, fi=fn.fi, node=ic)
   run.ob(R4, fn.qualname, "if col_rec.recalcWhen == RecalcWhen.MANUAL_UPDATES: invalidate_column",
